@@ -445,6 +445,18 @@ namespace rpc
             }
         }
 
+        template<typename T>
+        void process_field(fixed_buffer<T>& x)
+        {
+            if (x.size() != sizeof(T)) {    // the wire may claim any length
+                failed = true;
+                x._ptr = nullptr;
+                x._len = 0;
+                return;
+            }
+            process_field((buffer&)x);
+        }
+
         void process_field(iovec_array& x)
         {
             iovector_view v;
